@@ -556,8 +556,6 @@ def convert_argmax_to_depthwise_conv_and_max_pool(op: Operation, arch, nng) -> O
         identity_quant = QuantizationParameters()
         identity_quant.zero_point = 0
         identity_quant.scale_f32 = 1.0
-        # Add last dimension to ofm shape
-        ofm.shape += [1]
         ofm.ops = []
 
         # Create 1x1 Depthwise convolution with 2**7 weights for each channel to convert precision to 16 bit and shift
@@ -667,6 +665,8 @@ def convert_argmax_to_depthwise_conv_and_max_pool(op: Operation, arch, nng) -> O
             intermediate_32bit = ofm
 
         op_cast = create_cast_op(f"{orig_name}_cast_to_32bit_1", maxpool_ofm, intermediate_32bit)
+        # The OFM is written as 1xHxWx1; the shape of the OFM tensor itself (rank of the IFM - 1) is left as it is
+        op_cast.ofm_shapes[0] = Shape4D([1, h, w, 1])
         DebugDatabase.add_optimised(op, op_cast)
 
         if ofm.dtype == DataType.int64:
@@ -684,6 +684,7 @@ def convert_argmax_to_depthwise_conv_and_max_pool(op: Operation, arch, nng) -> O
             DebugDatabase.add_optimised(op, op_cast)
 
             memcpy_op = create_memcpy("f{orig_name}_memcpy_2", intermediate_32bit_2x_size, ofm)
+            memcpy_op.ofm_shapes[0] = Shape4D([1, h, w, 1])
             DebugDatabase.add_optimised(op, memcpy_op)
 
     return op
